@@ -3,6 +3,7 @@ package main
 import (
 	"fmt"
 	"go/token"
+	"go/types"
 	"math"
 	"sort"
 	"strconv"
@@ -264,6 +265,279 @@ func c17FloatSamples(w *World, r *Report) {
 			default:
 				r.fail(rule, key, "internal/parser", fmt.Sprintf("the sample %s is not representable as a 4-byte float: after encode/decode the member holds %v, and the emitted equality assertion fails for a correct codec", tv, float64(float32(v))))
 			}
+		}
+	}
+}
+
+// ---- option semantics: which option sets which configuration field, and the defaults ----
+
+// the documented contract (README "options"): option name -> configuration field it sets, and the default when the option is absent
+var optionField = map[string]string{
+	"ArrayPrefixLenType": "ListLenPrefixLenType", "StringPrefixLenType": "StringLenPrefixLenType", "LittleEndian": "LittleEndian",
+	"JavaPackage": "JavaPackage", "GoPackage": "GoPackage", "GoModule": "GoModule",
+	"FixedStringPadFromLeft": "Padding.PadLeft", "FixedStringPadChar": "Padding.PadChar",
+}
+var optionDefault = map[string]string{
+	"ListLenPrefixLenType": `"u16"`, "StringLenPrefixLenType": `"u16"`, "LittleEndian": "false",
+	"JavaPackage": `""`, "GoPackage": `""`, "GoModule": `""`, "Padding.PadLeft": "false", "Padding.PadChar": `"' '"`,
+}
+
+// optionSemantics: in NewConfiguration (and the model helpers it calls) every store into a configuration field is fed by exactly the
+// option the documentation names for it, read on the present edge of its lookup, and the constants that can reach the field are its
+// documented default (plus, for booleans, nothing else).
+func optionSemantics(w *World, r *Report, prop string) {
+	rule := prop + "/option-semantics"
+	nc := w.Model.Func("NewConfiguration")
+	if nc == nil || len(nc.Params) == 0 {
+		r.fail(rule, "NewConfiguration found", "internal/model/model.go", "model.NewConfiguration(options) not found")
+		return
+	}
+	type facts struct {
+		keys   map[string]bool
+		consts map[string]bool
+		unsafe []string // reads of an option value outside the present edge of its lookup
+	}
+	fields := map[string]*facts{}
+	get := func(f string) *facts {
+		if fields[f] == nil {
+			fields[f] = &facts{keys: map[string]bool{}, consts: map[string]bool{}}
+		}
+		return fields[f]
+	}
+	isOptions := func(v ssa.Value, bs bindings) bool {
+		v = stripIdentity(v)
+		for i := 0; i < 6; i++ {
+			p, ok := v.(*ssa.Parameter)
+			if !ok {
+				return false
+			}
+			if p == nc.Params[0] {
+				return true
+			}
+			a, bound := bs[p]
+			if !bound {
+				return false
+			}
+			v = stripIdentity(a)
+		}
+		return false
+	}
+	var flow func(v ssa.Value, bs bindings, fa *facts, depth int, seen map[ssa.Value]bool)
+	flow = func(v ssa.Value, bs bindings, fa *facts, depth int, seen map[ssa.Value]bool) {
+		if depth > 14 || v == nil {
+			return
+		}
+		if seen[v] {
+			return
+		}
+		seen[v] = true
+		switch x := v.(type) {
+		case *ssa.Const:
+			if x.Value == nil {
+				fa.consts["nil"] = true
+			} else {
+				fa.consts[x.Value.ExactString()] = true
+			}
+		case *ssa.Parameter:
+			if a, ok := bs[x]; ok {
+				flow(a, bs, fa, depth+1, seen)
+			}
+		case *ssa.Phi:
+			for _, e := range x.Edges {
+				flow(e, bs, fa, depth+1, seen)
+			}
+		case *ssa.Extract:
+			if lk, ok := x.Tuple.(*ssa.Lookup); ok && isOptions(lk.X, bs) {
+				if x.Index != 0 {
+					return
+				}
+				idx := lk.Index
+				if p, ok := stripIdentity(idx).(*ssa.Parameter); ok {
+					if a, bound := bs[p]; bound {
+						idx = a
+					}
+				}
+				if k, ok := constString(idx); ok {
+					fa.keys[k] = true
+					// every use of the value sits behind the "present" edge
+					for _, t := range membershipTests(lk.Parent()) {
+						if t.lookup != lk {
+							continue
+						}
+						for _, ref := range *x.Referrers() {
+							if _, isDbg := ref.(*ssa.DebugRef); isDbg {
+								continue
+							}
+							blk := ref.Block()
+							if phi, isPhi := ref.(*ssa.Phi); isPhi {
+								for i, e := range phi.Edges {
+									if e == ssa.Value(x) {
+										blk = phi.Block().Preds[i]
+									}
+								}
+							}
+							if !edgeDominates(t.branch, t.presentSucc, blk) {
+								fa.unsafe = append(fa.unsafe, k+" at "+w.instrPos(ref))
+							}
+						}
+					}
+				} else {
+					fa.keys["<computed>"] = true
+				}
+				return
+			}
+			flow(x.Tuple, bs, fa, depth+1, seen)
+		case *ssa.Lookup:
+			if isOptions(x.X, bs) {
+				if k, ok := constString(x.Index); ok {
+					fa.keys[k] = true
+				} else {
+					fa.keys["<computed>"] = true
+				}
+				return
+			}
+		case *ssa.BinOp:
+			// a comparison with a literal ("true") yields a computed boolean: the literal is not a default
+			if x.Op == token.EQL || x.Op == token.NEQ {
+				sub := &facts{keys: fa.keys, consts: map[string]bool{}}
+				flow(x.X, bs, sub, depth+1, seen)
+				flow(x.Y, bs, sub, depth+1, seen)
+				fa.unsafe = append(fa.unsafe, sub.unsafe...)
+				return
+			}
+			flow(x.X, bs, fa, depth+1, seen)
+			flow(x.Y, bs, fa, depth+1, seen)
+		case *ssa.UnOp:
+			flow(x.X, bs, fa, depth+1, seen)
+		case *ssa.Convert:
+			flow(x.X, bs, fa, depth+1, seen)
+		case *ssa.ChangeType:
+			flow(x.X, bs, fa, depth+1, seen)
+		case *ssa.Call:
+			if h := x.Call.StaticCallee(); h != nil && h.Pkg == w.Model && h.Blocks != nil {
+				nb := bindings{}
+				for k, val := range bs {
+					nb[k] = val
+				}
+				for i, p := range h.Params {
+					if i < len(x.Call.Args) {
+						nb[p] = x.Call.Args[i]
+					}
+				}
+				for _, b := range h.Blocks {
+					if ret, ok := b.Instrs[len(b.Instrs)-1].(*ssa.Return); ok {
+						for _, rv := range ret.Results {
+							flow(rv, nb, fa, depth+1, map[ssa.Value]bool{})
+						}
+					}
+				}
+				return
+			}
+			for _, a := range x.Call.Args {
+				flow(a, bs, fa, depth+1, seen)
+			}
+		}
+	}
+	// stores into Configuration / Padding fields in NewConfiguration and the model helpers it calls
+	seenFn := map[*ssa.Function]bool{nc: true}
+	type job struct {
+		fn *ssa.Function
+		bs bindings
+	}
+	work := []job{{nc, bindings{}}}
+	for i := 0; i < len(work) && i < 16; i++ {
+		j := work[i]
+		forEachInstr(j.fn, func(b *ssa.BasicBlock, ins ssa.Instruction) {
+			switch x := ins.(type) {
+			case *ssa.Store:
+				fa, ok := x.Addr.(*ssa.FieldAddr)
+				if !ok {
+					return
+				}
+				tn, f, _, _ := fieldOf(fa)
+				name := ""
+				switch tn {
+				case "Configuration":
+					name = f
+				case "Padding":
+					name = "Padding." + f
+				}
+				if name == "" || name == "Padding" {
+					return
+				}
+				flow(x.Val, j.bs, get(name), 0, map[ssa.Value]bool{})
+			case ssa.CallInstruction:
+				if h := x.Common().StaticCallee(); h != nil && h.Pkg == w.Model && h.Blocks != nil && !seenFn[h] {
+					seenFn[h] = true
+					nb := bindings{}
+					for k, val := range j.bs {
+						nb[k] = val
+					}
+					for i2, p := range h.Params {
+						if i2 < len(x.Common().Args) {
+							nb[p] = x.Common().Args[i2]
+						}
+					}
+					work = append(work, job{h, nb})
+				}
+			}
+		})
+	}
+	// which configuration fields exist (a renamed field is reported as not judged rather than guessed)
+	exists := map[string]bool{}
+	if mp := w.ByPath[modPath+"/internal/model"]; mp != nil {
+		for _, tn := range []string{"Configuration", "Padding"} {
+			if obj := mp.Types.Scope().Lookup(tn); obj != nil {
+				if st, ok := obj.Type().Underlying().(*types.Struct); ok {
+					for i := 0; i < st.NumFields(); i++ {
+						n := st.Field(i).Name()
+						if tn == "Padding" {
+							n = "Padding." + n
+						}
+						exists[n] = true
+					}
+				}
+			}
+		}
+	}
+	for _, opt := range sortedKeys(optionField) {
+		f := optionField[opt]
+		key := fmt.Sprintf("option %s sets %s and nothing else does", opt, f)
+		if !exists[f] {
+			r.pass(rule, key, "internal/model/model.go", "not judged: the configuration has no field of that name (renamed?)")
+			continue
+		}
+		fa := fields[f]
+		switch {
+		case fa == nil || !fa.keys[opt]:
+			got := "nothing"
+			if fa != nil && len(fa.keys) > 0 {
+				got = strings.Join(sortedBoolKeys(fa.keys), ", ")
+			}
+			r.fail(rule, key, "internal/model/model.go", fmt.Sprintf("the field %s is fed by %s, not by the option %s", f, got, opt))
+		case len(fa.keys) != 1:
+			r.fail(rule, key, "internal/model/model.go", fmt.Sprintf("the field %s is fed by the options %s", f, strings.Join(sortedBoolKeys(fa.keys), ", ")))
+		case len(fa.unsafe) > 0:
+			r.fail(rule, key, "internal/model/model.go", "the option value is used outside the present edge of its lookup: "+strings.Join(uniqStrings(fa.unsafe), "; "))
+		default:
+			r.pass(rule, key, "internal/model/model.go", "")
+		}
+		dkey := fmt.Sprintf("%s defaults to %s", f, optionDefault[f])
+		if fa == nil {
+			continue
+		}
+		want := optionDefault[f]
+		var bad []string
+		for c := range fa.consts {
+			if c != want {
+				bad = append(bad, c)
+			}
+		}
+		sort.Strings(bad)
+		if fa.consts[want] && len(bad) == 0 {
+			r.pass(rule, dkey, "internal/model/model.go", "")
+		} else {
+			r.fail(rule, dkey, "internal/model/model.go", fmt.Sprintf("constants that can reach %s: %v (documented default %s)", f, sortedBoolKeys(fa.consts), want))
 		}
 	}
 }
